@@ -35,7 +35,16 @@ PLAN = {
     "C19": [("neural.functional.encoding", None, None), ("neural.encoders.poisson", None, None), ("neural.encoders.special", None, None), ("neural.encoders.mixins", None, None)],
     "C20": [("stats.distributions", None, None), ("functional.interpolation", None, None), ("functional.extrapolation", None, None), ("core.math", None, None)],
 }
-SKIP_NAMES = {"__repr__", "extra_repr", "__str__"}
+SKIP_NAMES = {"__repr__", "extra_repr", "__str__", "_"}
+# curation (kept here so that a regeneration reproduces the committed registry):
+EXCLUDE = {("Updater", "forward"): "C10.c accepts any value-equivalent write-back",
+           ("TripletSTDP", "forward"): "summary takes > 5 s; covered by C08.a-c",
+           ("StableTripletSTDP", "forward"): "summary takes > 5 s; covered by C08.a-c",
+           ("LinearHomeostasis", "forward"): "behind known finding D24: a table would report its repair",
+           ("SpikeRefractoryMixin", "spike"): "behind known finding D25",
+           ("Observable", "add_monitor"): "behind known finding D19"}
+MOVE = {("Conv2D", "selector"): "C06", ("LinearDense", "selector"): "C06", ("LinearDirect", "selector"): "C06", ("LinearLateral", "selector"): "C06",
+        (None, "normalize"): "C16"}
 
 import signal
 
@@ -77,6 +86,8 @@ for prop, plan in PLAN.items():
             if f.cls is not None and f.node not in f.cls.node.body:
                 continue
             cn = f.cls.name if f.cls else None
+            if (cn, f.name) in EXCLUDE:
+                continue
             base = f"{cn + '.' if cn else ''}{f.name}{'' if k == 'plain' else '.' + k}"
             if base in existing_manual:
                 continue
@@ -94,7 +105,8 @@ for prop, plan in PLAN.items():
             try:
                 signal.alarm(25)
                 code, cb = terms.function_term(P, f, None, **OPTS)
-                sb = terms.Builder(None, None, {}, **{kk: v for kk, v in OPTS.items() if kk != "inline_depth"})
+                sb = terms.Builder(None, None, {}, **{kk: v for kk, v in OPTS.items() if kk not in ("inline_depth", "inline_new")})
+                sb.module_names = {n for n in list(f.module.imports) if (P.resolve(f.module.name, n) or ("",))[0] in ("module", "ext")}
                 spec = sb.run(strip_doc(ast.parse(src).body[0].body))
                 none = terms.app("const", "None")
                 a_, b_ = (none if code is None else code), (none if spec is None else spec)
@@ -115,9 +127,9 @@ for prop, plan in PLAN.items():
                 base = f"{modsuf.split('.')[-1]}__{base}"
                 fn = os.path.join(tdir, base + ".py")
             open(fn, "w").write(src)
-            reg.setdefault(prop, []).append((cn, f.name, k, modsuf, os.path.basename(fn)))
+            reg.setdefault(MOVE.get((cn, f.name), prop), []).append((cn, f.name, k, modsuf, os.path.basename(fn)))
 with open(os.path.join(tdir, "registry.py"), "w") as fh:
-    fh.write('"""Which functions have a decision table, per property (generated by tools/mktables_bulk.py, then kept under review)."""\n')
+    fh.write('"""Which functions have a decision table, per property (generated by tools/mktables_bulk.py, whose EXCLUDE / MOVE tables hold the\nhand curation: entries moved to the property whose statement the function serves, dropped where a clause deliberately accepts\nseveral equivalent forms, and never tabled for the functions behind the recorded known findings D19, D24, D25)."""\n')
     fh.write("REG = " + json.dumps(reg, indent=1).replace("null", "None") + "\n")
 print({k: len(v) for k, v in reg.items()}, "total", sum(len(v) for v in reg.values()))
 print("dropped", len(dropped))
